@@ -256,6 +256,8 @@ def run_sim_class(chk, cls, scs, mons, variant=None, batch=250, tag=None):
             sc["odd_names"] = True             # timer names containing pattern characters ("slot[1]", "s*", "done?")
         if "late_config" not in sc and k % 5 == 2:
             sc["late_config"] = True           # configuration objects filled in AFTER they were handed to handler / builder
+        if "nodes_first" not in sc and k % 4 == 3:
+            sc["nodes_first"] = True           # builder.add_node(...) for every node BEFORE the handlers are added
         if "truthy_preds" not in sc and k % 2 == 1:
             sc["truthy_preds"] = True          # assertion predicates return non-bool objects with the same truth value
         # the harness' own default switches execution logging off; every fourth scenario runs under the
@@ -318,7 +320,7 @@ def run_sim_class(chk, cls, scs, mons, variant=None, batch=250, tag=None):
 
 def _brief(sc):
     d = {k: sc[k] for k in ("handlers", "nodes", "med", "mob", "asserts", "seed", "dur", "maxit", "drv", "script")}
-    for k in ("reuse_commands", "fresh_controllers", "odd_names", "truthy_preds", "build_twice", "poll_done", "int_numbers", "enum_names", "raw_commands", "rerun", "late_config", "variant", "stream"):
+    for k in ("reuse_commands", "fresh_controllers", "odd_names", "truthy_preds", "build_twice", "poll_done", "int_numbers", "enum_names", "raw_commands", "rerun", "late_config", "nodes_first", "variant", "stream"):
         if k in sc:
             d[k] = sc[k]
     return d
@@ -536,6 +538,31 @@ def gen_watchdog(R):
             "dur": None, "maxit": None, "drv": ("run",), "script": script}
 
 
+def gen_many_nodes(R, rng=None, mob=True):
+    """scale in the number of nodes (11-30): identifiers with two digits, broadcasts with a wide fan-out, a telemetry
+    event per node and update; few rules per node"""
+    nn = R.randint(11, 30)
+    side = R.choice([4, 5, 6])
+    nodes = [{"pos": (float(3 * (i % side)), float(3 * (i // side)), 0.0), "ty": R.choice([0, 0, 1])} for i in range(nn)]
+    script = []
+    msg = itertools.count(0)
+    for me in range(nn):
+        rules = []
+        if R.random() < 0.4:
+            rules.append({"trig": ("init",), "nth": None, "acts": [("settimer", R.randrange(3), "abs", R.choice([0.5, 1.0, 1.5]))]})
+            rules.append({"trig": ("timer", None), "nth": 0,
+                          "acts": [R.choice([("bcast", next(msg)), ("send", next(msg), R.choice([i for i in range(nn) if i != me]))])]})
+        if R.random() < 0.25:
+            rules.append({"trig": ("packet", None), "nth": 0, "acts": [("send", next(msg), R.choice([i for i in range(nn) if i != me]))]})
+        if mob and R.random() < 0.3:
+            rules.append({"trig": ("init",), "nth": None, "acts": [("goto", float(R.randint(0, 15)), float(R.randint(0, 15)), 0.0)]})
+        script.append(rules)
+    hs = ["T", "C"] + (["M"] if mob else [])
+    return {"handlers": R.sample(hs, len(hs)), "nodes": nodes, "med": (rng if rng is not None else R.choice([5.0, 8.0, 1000.0]), R.choice([0.0, 0.25]), 0.0),
+            "mob": (R.choice([0.5, 1.0]), 3.0, (0.0, 0.0, 0.0)), "asserts": [], "seed": R.randrange(1 << 30),
+            "dur": R.choice([2.0, 2.5, 3.0]), "maxit": None, "drv": ("run",), "script": script}
+
+
 def gen_burst(R):
     """bursts of sends on links with a fixed delay, and of same-instant timers, with unique payloads"""
     nn = R.randint(2, 4)
@@ -571,6 +598,22 @@ def gen_burst(R):
             "dur": None, "maxit": None, "drv": ("run",), "script": script}
 
 
+def gen_near_ties(R):
+    """two events due one rounding error apart (0.1 + 0.2 and 0.3): a message sent at a with delay d arrives at the double
+    a + d, a timer is set for the decimal that a + d was meant to be; either may be requested first; a recorder handler"""
+    pairs = [(0.1, 0.2), (0.2, 0.1), (0.1, 0.7), (0.7, 0.1), (0.2, 0.4), (0.4, 0.2), (1.1, 2.2), (0.3, 0.6), (0.6, 0.3)]
+    a, d = R.choice(pairs)
+    T = round(a + d, 1)
+    other = R.choice([x for x in (round(a / 2, 2), round(a + d / 2, 2), 0.0) if x < T])
+    script = [[{"trig": ("init",), "nth": None, "acts": [("settimer", 0, "abs", a)] + ([("settimer", 1, "abs", other)] if other > 0 else [("settimer", 2, "abs", T)])},
+               {"trig": ("timer", 0), "nth": None, "acts": [("send", 7, 1)]},
+               {"trig": ("timer", 1), "nth": None, "acts": [("settimer", 2, "abs", T)]}],
+              [{"trig": ("packet", None), "nth": None, "acts": [("settimer", 1, "rel", 0.5)]}]]
+    return {"handlers": R.sample(["T", "C", "R0"], 3), "nodes": [{"pos": (float(i), 0.0, 0.0), "ty": 0} for i in range(2)],
+            "med": (100.0, d, 0.0), "mob": (1.0, 1.0, (0.0, 0.0, 0.0)), "asserts": [], "seed": 1,
+            "dur": None, "maxit": 400, "drv": ("run",), "script": script, "near": (T, a + d)}
+
+
 def check_C04(chk, R, S):
     chk.rule = ("timelines from scripted programs x duration in {None, 0, an event time, between two, past the last} x "
                 "max_iterations in {None, 0, 1, k, > total}, blocking and stepped; the bounded run must execute exactly "
@@ -581,11 +624,15 @@ def check_C04(chk, R, S):
         base = gen_sim.gen_scenario(R, {"rec_weights": [0, 3, 1], "p_assert": 0.0, "p_bounded": 0.7, "p_steps": 0.0})
         base["dur"], base["maxit"], base["drv"] = None, 400, ("run",)
         scs.append(base)
+    scs += [gen_near_ties(R) for _ in range(max(12, S["sims"] // 20))]
     refs = corr.corr_sims(scs)
     todo = []
     for r in refs:
         base = r["sc"]
-        ex = M.executed(r["impl"], M.recs(base)[0])
+        # the reference timeline is the proved model's unbounded run of the scenario (the implementation's own unbounded
+        # run is compared with it like every other run)
+        ref_trace = r["model"] if r.get("model") and len(r["model"]) > 1 else r["impl"]
+        ex = M.executed(ref_trace, M.recs(base)[0])
         times = sorted({ts for _, ts in ex})
         durs = [None, 0.0]
         if times:
@@ -596,6 +643,8 @@ def check_C04(chk, R, S):
             if len(times) > 1:
                 k = R.randrange(len(times) - 1)
                 durs.append((times[k] + times[k + 1]) / 2)
+        if "near" in base:
+            durs = [base["near"][0], base["near"][1], min(base["near"]), None]
         durs = [d for d in durs if d is None or d >= 0.0]        # a negative duration is not a meaningful configuration
         its = [None, 0, 1, max(1, len(ex) // 2), len(ex), len(ex) + 5]
         for _ in range(4):
@@ -605,7 +654,7 @@ def check_C04(chk, R, S):
                 c["maxit"] = 400
             if R.random() < 0.35:
                 c["drv"] = ("steps", R.randint(0, len(ex) + 4))
-            todo.append((c, r["impl"]))
+            todo.append((c, ref_trace))
     reftr = {id(c): t for c, t in todo}
 
     def mon_prefix(sc, trace):
@@ -841,6 +890,7 @@ def check_C08(chk, R, S):
         sc["dur"], sc["maxit"] = None, None
     run_sim_class(chk, "sim-inrange-exhaustion", scs, [M.mon_C08])
     run_sim_class(chk, "sim-bursts", [gen_burst(R) for _ in range(S["sims"] // 2)], [M.mon_C08])
+    _many_nodes_class(chk, R, S, [M.mon_C08], rng=1000.0, mob=False)
 
 
 QUADS = [(1, 2, 2, 3), (2, 3, 6, 7), (1, 4, 8, 9), (4, 4, 7, 9), (2, 6, 9, 11), (6, 6, 7, 11), (3, 4, 12, 13), (2, 10, 11, 15)]
@@ -938,6 +988,10 @@ def gen_same_instant_scenario(R):
             "asserts": [], "seed": 1, "dur": T + 1.0, "maxit": None, "drv": ("run",), "script": script}
 
 
+def _many_nodes_class(chk, R, S, mons, rng=None, mob=True):
+    run_sim_class(chk, "sim-many-nodes", [gen_many_nodes(R, rng, mob) for _ in range(max(12, S["sims"] // 20))], mons)
+
+
 def check_C09(chk, R, S):
     chk.rule = ("3-D placements incl. exact boundary distances (scaled Pythagorean quadruples, +-2^-20 off), per-node ranges "
                 "changed at arbitrary times, delays, nodes moving while messages are in flight; expected receivers "
@@ -947,6 +1001,7 @@ def check_C09(chk, R, S):
     scs = [gen_range_scenario(R) for _ in range(S["sims"])]
     run_sim_class(chk, "sim-range", scs, [M.mon_C09])
     run_sim_class(chk, "sim-same-instant", [gen_same_instant_scenario(R) for _ in range(max(40, S["sims"] // 10))], [M.mon_C09])
+    _many_nodes_class(chk, R, S, [M.mon_C09])
     nb = sum(1 for sc in scs for nd in sc["nodes"][1:] if (M._py_sq(sc["nodes"][0]["pos"], nd["pos"]) == sc["med"][0] ** 2))
     chk.extra["boundary_pairs"] = nb
 
@@ -965,6 +1020,9 @@ def gen_loss_scenario(R, exhaustive_pattern=None):
             for _ in range(R.randint(1, 5)):
                 others = [i for i in range(nn) if i != me]
                 acts.append(("bcast", next(msg)) if R.random() < 0.6 else ("send", next(msg), R.choice(others)))
+                if acts[-1][0] == "bcast" and R.random() < 0.2:
+                    # a broadcast command that still carries a destination (a re-used command object): a broadcast all the same
+                    acts[-1] = ("bcastdst", acts[-1][1], R.choice(others + [me]))
             script[me].append({"trig": R.choice([("init",), ("init",), ("packet", None)]), "nth": None if R.random() < 0.5 else 0, "acts": acts})
             if script[me][-1]["trig"][0] == "packet":
                 script[me][-1]["nth"] = R.randrange(2)
@@ -1079,6 +1137,7 @@ def check_C12(chk, R, S):
     prof = {"p_mob": 1.0, "p_timer": 0.9, "min_nodes": 1, "max_nodes": 6, "p_assert": 0.0}
     scs += gen_many(R, S["sims"] // 2, prof)
     run_sim_class(chk, "sim-telemetry", scs, [M.mon_C12])
+    _many_nodes_class(chk, R, S, [M.mon_C12])
 
 
 def gen_pair_C13(R):
